@@ -385,6 +385,14 @@ func generate(prop, tier string, r *rand.Rand, idx int) any {
 		return genC03(prop, tier, r)
 	case "C04":
 		return genC04(prop, tier, r)
+	case "C06":
+		return genC06(prop, tier, r)
+	case "C07":
+		return genC07(prop, tier, r)
+	case "C08":
+		return genC08(prop, tier, r)
+	case "C09":
+		return genC09(prop, tier, r)
 	}
 	panic("flowsim: no generator for " + prop)
 }
@@ -466,4 +474,229 @@ func genC04(prop, tier string, r *rand.Rand) *Scn {
 		}
 		return g.sc
 	})
+}
+
+// ---- batch profiles -----------------------------------------------------------------
+
+// batchSize: biased small, occasionally up to max.
+func batchSize(r *rand.Rand, max int) int {
+	switch r.IntN(6) {
+	case 0:
+		return r.IntN(2)
+	case 1, 2:
+		return 1 + r.IntN(4)
+	case 3:
+		return r.IntN(9)
+	}
+	return r.IntN(max + 1)
+}
+
+// setBatchConfig replaces the batch-specific settings of n.
+func setBatchConfig(g *gen, n *NodeSpec, budget, wait, conc int, stop bool) {
+	form := func() string {
+		if n.Hand {
+			return "opt"
+		}
+		return pick(g.r, []string{"opt", "builder"})
+	}
+	n.Settings = nil
+	if budget != 1 {
+		n.Settings = append(n.Settings, Setting{Param: "retries", Form: form(), Val: budget})
+	}
+	if wait != 0 {
+		n.Settings = append(n.Settings, Setting{Param: "wait", Form: form(), Val: wait})
+	}
+	if conc != 0 || g.chance(0.2) {
+		n.Settings = append(n.Settings, Setting{Param: "conc", Form: form(), Val: conc})
+	}
+	if stop {
+		n.Settings = append(n.Settings, Setting{Param: "stop", Form: form(), Val: 1})
+	} else if g.chance(0.2) {
+		n.Settings = append(n.Settings, Setting{Param: "stop", Form: form(), Val: 0})
+	}
+	n.Settings = orderSettings(n.Settings)
+}
+
+// rootBatch creates a single batch node with one visit of n items and makes
+// it the scenario root (sometimes as the only member of a flow).
+func (g *gen) rootBatch(ni, budget, wait, conc int, stop bool, shapes []string) *NodeSpec {
+	n := &NodeSpec{ID: len(g.sc.Nodes), Kind: "batch"}
+	n.Styles = string([]byte{'R', pick(g.r, []byte("RA")), 'R'})
+	n.FnForm = "builder"
+	if len(shapes) > 0 && g.chance(0.35) {
+		n.Hand = true
+		n.FnForm = ""
+		n.PrepShape = pick(g.r, shapes)
+		switch n.PrepShape {
+		case "single":
+			ni = 1
+		case "nil":
+			ni = 0
+		}
+	}
+	if g.chance(0.3) {
+		n.Hand = true
+		n.FnForm = ""
+		if n.PrepShape == "" {
+			n.PrepShape = "results"
+		}
+		n.HasFb = g.chance(0.7)
+	}
+	setBatchConfig(g, n, budget, wait, conc, stop)
+	vs := Visit{Post: Outcome{Action: pick(g.r, []string{"default", "a", "b"})}}
+	for i := 0; i < ni; i++ {
+		it := Item{Pay: pick(g.r, []string{"int", "str", "map", "ptr", "struct", "slice"})}
+		it.Exec = g.execScript(budget, n.style(1) == 'R' && !stop)
+		if n.HasFb && g.chance(0.6) {
+			fo := g.outcome()
+			it.Fb = &fo
+		}
+		vs.Items = append(vs.Items, it)
+	}
+	n.Visits = []Visit{vs}
+	g.sc.Nodes = append(g.sc.Nodes, n)
+	g.sc.Root = n.ID
+	if g.chance(0.15) {
+		f := &NodeSpec{ID: len(g.sc.Nodes), Kind: "flow", Start: n.ID}
+		g.sc.Nodes = append(g.sc.Nodes, f)
+		g.sc.Root = f.ID
+	}
+	return n
+}
+
+// timing decides how completion orders get explored: by the scheduler
+// (zero-duration callbacks, run-me-last gates) or by the fake clock (drawn durations).
+func (g *gen) timing(n *NodeSpec) {
+	vs := &n.Visits[0]
+	mode := g.r.IntN(3)
+	for i := range vs.Items {
+		for a := range vs.Items[i].Exec {
+			o := &vs.Items[i].Exec[a]
+			o.SleepMs = 0
+			switch mode {
+			case 1:
+				o.SleepMs = 10 * g.r.IntN(6)
+			case 2:
+				if g.chance(0.3) {
+					o.Gate = "last"
+				}
+			}
+		}
+	}
+}
+
+func genC06(prop, tier string, r *rand.Rand) *Scn {
+	g := newGen(prop, tier, r)
+	g.failP = 0.2
+	g.sc.Faulty = true
+	g.noErrRes = false
+	conc := 0
+	if r.IntN(4) > 0 {
+		conc = 1 + r.IntN(16)
+		if r.IntN(2) == 0 {
+			conc = 1 + r.IntN(4)
+		}
+	}
+	budget := 1 + r.IntN(2)
+	n := g.rootBatch(batchSize(r, 64), budget, pick(r, []int{0, 0, 10}), conc, false, []string{"results", "anys", "ints", "strings", "single", "nil"})
+	g.timing(n)
+	return g.sc
+}
+
+func genC07(prop, tier string, r *rand.Rand) *Scn {
+	g := newGen(prop, tier, r)
+	g.failP = 0.45
+	g.sc.Faulty = true
+	conc := 0
+	if r.IntN(3) > 0 {
+		conc = 1 + r.IntN(8)
+	}
+	budget := 1 + r.IntN(4)
+	n := g.rootBatch(batchSize(r, 32), budget, pick(r, []int{0, 0, 10, 20}), conc, false, []string{"results", "anys"})
+	if !n.Hand && r.IntN(2) == 0 { // fallbacks need the hand-composed form outside C19
+		n.Hand, n.FnForm, n.PrepShape, n.HasFb = true, "", "results", true
+		for i := range n.Visits[0].Items {
+			if g.chance(0.6) {
+				fo := g.outcome()
+				n.Visits[0].Items[i].Fb = &fo
+			}
+		}
+	}
+	g.timing(n)
+	return g.sc
+}
+
+func genC08(prop, tier string, r *rand.Rand) *Scn {
+	g := newGen(prop, tier, r)
+	g.failP = 0.1
+	conc := r.IntN(17)
+	if r.IntN(2) == 0 {
+		conc = r.IntN(5)
+	}
+	ni := r.IntN(4*conc + 9)
+	if r.IntN(3) == 0 {
+		ni = r.IntN(conc + 3)
+	}
+	n := g.rootBatch(ni, 1+r.IntN(2), 0, conc, false, nil)
+	g.timing(n)
+	if r.IntN(2) == 0 {
+		// usability: every execution parks until min(c, n) executions have started
+		vs := &n.Visits[0]
+		for i := range vs.Items {
+			for a := range vs.Items[i].Exec {
+				vs.Items[i].Exec[a].Gate = ""
+				vs.Items[i].Exec[a].SleepMs = 0
+			}
+			vs.Items[i].Exec[0].Gate = "barrier"
+		}
+	}
+	return g.sc
+}
+
+func genC09(prop, tier string, r *rand.Rand) *Scn {
+	g := newGen(prop, tier, r)
+	g.failP = 0
+	g.sc.Faulty = true
+	conc := r.IntN(5)
+	stop := r.IntN(4) > 0
+	budget := 1 + r.IntN(2)
+	ni := 1 + r.IntN(16)
+	if r.IntN(2) == 0 {
+		ni = 1 + r.IntN(6)
+	}
+	n := g.rootBatch(ni, budget, 0, conc, stop, []string{"results", "anys"})
+	vs := &n.Visits[0]
+	// failing items: one (anywhere), sometimes more
+	fail := func(i int) {
+		vs.Items[i].Exec = nil
+		for a := 0; a < budget; a++ {
+			vs.Items[i].Exec = append(vs.Items[i].Exec, Outcome{Fail: pick(r, failKinds)})
+		}
+		vs.Items[i].Fb = nil
+	}
+	f := r.IntN(ni)
+	fail(f)
+	for k := r.IntN(3); k > 0; k-- {
+		fail(r.IntN(ni))
+	}
+	if conc > 1 && stop && r.IntN(2) == 0 && f < conc {
+		// "failure handled first": the other in-flight items park inside their
+		// exec until the failure is seen; the failing worker then runs alone
+		for i := range vs.Items {
+			if vs.Items[i].Exec[0].Fail != "" {
+				if i != f { // keep a single failing item in this mode
+					vs.Items[i].Exec = []Outcome{{Pay: "int"}}
+				}
+				continue
+			}
+			if i < conc {
+				vs.Items[i].Exec[0].Gate = "failseen"
+			}
+		}
+		last := len(vs.Items[f].Exec) - 1
+		vs.Items[f].Exec[last].Boost = true
+	} else {
+		g.timing(n)
+	}
+	return g.sc
 }
